@@ -1575,6 +1575,8 @@ class Interp:
             if _is_typeish(a) and _is_typeish(b):
                 return ExtRef("typing.Union")
         if op is ast.Add:
+            if isinstance(a, ExtObj) and a.kind == "bytes:chunk":
+                return self.models.concat_chunks(a, b)
             if is_strlike(a) and is_strlike(b):
                 return sstr(a, b)
             if isinstance(a, tuple) and isinstance(b, tuple):
